@@ -18,7 +18,7 @@ MkTree(par) ==
       rootname == IF chain = 0 THEN "leaf" ELSE IF chain = 1 THEN "mid" ELSE "root"
       \* the body that is actually rendered (root of the chain): text, a yield, a definition site, a yield in a range
       layout(f) == <<T(f \o ":top")>> \o
-                   (CASE site = "yield"   -> <<YieldS("y1", "b1", <<>>, NoE)>>
+                   (CASE site \in {"yield", "viainclude", "viaexec"} -> <<YieldS("y1", "b1", <<>>, NoE)>>
                       [] site = "defsite" -> <<BlockS(f \o "b1site", "b1", <<Par("q1", Lit(f \o "sitedflt"))>>, NoE, <<T(f \o ":b1site"), P(f \o "siteq", Var("q1"))>>)>>
                       [] site = "inrange" -> <<RangeS("rg", "none", "", "", "", ListE("slice", <<"e1", "e2">>), <<YieldS("y1", "b1", <<>>, NoE)>>)>>
                       [] site = "inblock" -> <<BlockS(f \o "wrapd", "wrap", <<>>, NoE, <<T("w("), YieldS("y1", "b1", <<>>, NoE), T(")")>>)>>
@@ -31,8 +31,10 @@ MkTree(par) ==
       body(f) == IF f = rootname THEN defs(f) \o layout(f) ELSE <<T(f \o ":junk")>> \o defs(f) \o <<T(f \o ":junk2")>>
       imps(f) == IF f = "leaf" THEN SubSeq(<<"i1", "i2">>, 1, nimp) ELSE IF f = "mid" /\ nimp = 2 THEN <<"i3">> ELSE <<>>
       ext(f)  == IF f = "leaf" /\ chain >= 1 THEN "mid" ELSE IF f = "mid" /\ chain = 2 THEN "root" ELSE ""
-  IN [ts |-> [i \in 1..Len(Files) |-> Tm(Files[i], ext(Files[i]), imps(Files[i]), body(Files[i]))],
-      globals |-> NoVarsMap, runs |-> <<RunR("leaf", NoVarsMap, "D")>>,
+      \* the leaf rendered from another template: {{include}} / exec() resolve its blocks like Execute does
+      outer == Tm("outer", "", <<>>, <<T("o(")>> \o (IF site = "viaexec" THEN <<ExecLet("oi", "r", "leaf")>> ELSE <<Incl("oi", "leaf")>>) \o <<T(")")>>)
+  IN [ts |-> [i \in 1..Len(Files) |-> Tm(Files[i], ext(Files[i]), imps(Files[i]), body(Files[i]))] \o <<outer>>,
+      globals |-> NoVarsMap, runs |-> <<RunR(IF site \in {"viainclude", "viaexec"} THEN "outer" ELSE "leaf", NoVarsMap, "D")>>,
       tag |-> "tree|" \o ToString(chain) \o "|" \o ToString(nimp) \o "|" \o site]
 
 \* named arguments: every ordered selection of the declared parameters
@@ -50,12 +52,17 @@ MkParams(par) ==
 
 \* content: supplied by the caller / the block's default / absent; content in content; content sees the caller's scope
 MkContent(par) ==
-  LET ck == par[2]  nest == par[3]  tryfail == par[4]
+  LET ck == par[2]  nest == par[3]  tryfail == par[4] = "tryfail"
       \* a yield with content that fails inside a try in the block: the caller's content is still the one rendered after it
       failing == IF tryfail THEN <<TryS("bt", <<YieldC("yf", "bfail", <<>>, NoE, <<T("INNER")>>)>>)>> ELSE <<>>
+      \* inside the block (the caller's content is the active one): a yield with an EMPTY content section, and a
+      \* definition site whose default content is empty - {{yield content}} in there renders nothing
+      empties == IF par[4] = "emptyinner" THEN <<YieldC("ye", "bempty", <<>>, NoE, <<>>)>>
+                 ELSE IF par[4] = "emptydef" THEN <<BlockC("bed2", "bempty2", <<>>, NoE, <<T("e2("), YContent("ey2"), T(")")>>, <<>>)>> ELSE <<>>
+      bempty == BlockS("bed", "bempty", <<>>, NoE, <<T("e("), YContent("ey"), T(")")>>)
       bfail == BlockS("bfd", "bfail", <<>>, NoE, <<T("bf("), YContent("bfy"), P("bff", FailE), T(")")>>)
       blk  == BlockC("bcd", "bc", <<Par("p", Lit("dp"))>>, NoE,
-                     <<LetS("bl", "s", Lit("blocal")), T("<")>> \o failing \o <<YContent("byc"), T("|"), YContentCx("byc2", Lit("cx2")), T(">")>>,
+                     <<LetS("bl", "s", Lit("blocal")), T("<")>> \o failing \o empties \o <<YContent("byc"), T("|"), YContentCx("byc2", Lit("cx2")), T(">")>>,
                      <<T("defcontent"), P("dcs", IsSetE("s"))>>)
       inner == IF nest THEN <<YieldC("yin", "bc", <<Par("p", Lit("p2"))>>, NoE, <<P("ins", Var("s")), P("inp", Var("p")), P("inctx", Ctx)>>)>> ELSE <<>>
       cbody == <<P("cs", Var("s")), P("cp", IsSetE("p")), P("cctx", Ctx)>> \o inner
@@ -63,9 +70,9 @@ MkContent(par) ==
                 [] ck = "none"    -> YieldS("yc", "bc", <<>>, NoE)
                 [] ck = "defsite" -> blk
       main == <<LetS("ls", "s", Lit("s0")), T("pre"), y, P("zs", Var("s")), T("post")>>
-  IN [ts |-> <<Tm("leaf", "", <<"lib">>, main), Tm("lib", "", <<>>, (IF ck = "defsite" THEN <<>> ELSE <<blk>>) \o <<bfail>>)>>,
+  IN [ts |-> <<Tm("leaf", "", <<"lib">>, main), Tm("lib", "", <<>>, (IF ck = "defsite" THEN <<>> ELSE <<blk>>) \o <<bfail, bempty>>)>>,
       globals |-> NoVarsMap, runs |-> <<RunR("leaf", NoVarsMap, "D")>>,
-      tag |-> "content|" \o ck \o (IF nest THEN "|nest" ELSE "") \o (IF tryfail THEN "|tryfail" ELSE "")]
+      tag |-> "content|" \o ck \o (IF nest THEN "|nest" ELSE "") \o (IF par[4] # "" THEN "|" \o par[4] ELSE "")]
 
 \* two entry templates sharing an imported library: parsing one must not change what the other renders
 MkShared(par) ==
@@ -103,14 +110,14 @@ MkC(par) == CASE par[1] = "alias" -> MkAlias(par) [] par[1] = "shared" -> MkShar
 
 FileSet == {"leaf", "mid", "root", "i1", "i2", "i3"}
 AllParams == ({"tree"} \X (0..2) \X (0..2) \X (SUBSET FileSet) \X {{}, {"leaf"}, {"root"}, {"i2", "mid"}} \X
-              {"yield", "defsite", "inrange", "inblock", "incontent", "afterincif", "afterinclude", "afterexec"})
+              {"yield", "defsite", "inrange", "inblock", "incontent", "afterincif", "afterinclude", "afterexec", "viainclude", "viaexec"})
       \cup ({"params"} \X Perms({"a", "b", "c"}) \X {"import", "extends"})
       \cup ({"shared"} \X {"ab", "ba"} \X BOOLEAN)
       \cup ({"alias"} \X (1..4))
-      \cup ({"content"} \X {"caller", "none", "defsite"} \X BOOLEAN \X BOOLEAN)
+      \cup ({"content"} \X {"caller", "none", "defsite"} \X BOOLEAN \X {"", "tryfail", "emptyinner", "emptydef"})
 cParams == IF "tree" \in Families THEN AllParams
            ELSE (IF "params" \in Families THEN {"params"} \X Perms({"a", "b", "c"}) \X {"import", "extends"} ELSE {})
                 \cup (IF "shared" \in Families THEN {"shared"} \X {"ab", "ba"} \X BOOLEAN ELSE {})
                 \cup (IF "alias" \in Families THEN {"alias"} \X (1..4) ELSE {})
-                \cup (IF "content" \in Families THEN {"content"} \X {"caller", "none", "defsite"} \X BOOLEAN \X BOOLEAN ELSE {})
+                \cup (IF "content" \in Families THEN {"content"} \X {"caller", "none", "defsite"} \X BOOLEAN \X {"", "tryfail", "emptyinner", "emptydef"} ELSE {})
 =============================================================================
